@@ -634,9 +634,17 @@ def _reads_written_state(e, later, uses, owner):
     reads = set()
     for n in ast.walk(e):
         if isinstance(n, (ast.Attribute, ast.Subscript)):
-            reads.add(ast.unparse(n.value))
             reads.add(ast.unparse(n))
     if not reads:
+        return False
+
+    def conflicts(written):
+        """a store to the path `written` changes what a read of path r yields: the same path, a part of r, or a part of the
+        object r names (writing `a.b` does not touch `a.c`)"""
+        for r in reads:
+            if r == written or r.startswith(written + '.') or r.startswith(written + '[') or \
+                    written.startswith(r + '.') or written.startswith(r + '['):
+                return True
         return False
     last = max((getattr(u, 'lineno', 0) for u in uses), default=0)
     span = list(later)
@@ -656,13 +664,14 @@ def _reads_written_state(e, later, uses, owner):
                 tg = n.targets
             for t in tg:
                 for x in ast.walk(t):
-                    if isinstance(x, (ast.Attribute, ast.Subscript)) and (ast.unparse(x) in reads or ast.unparse(x.value) in reads):
+                    if isinstance(x, (ast.Attribute, ast.Subscript)) and isinstance(x.ctx, (ast.Store, ast.Del)) and conflicts(ast.unparse(x)):
                         return True
-            if isinstance(n, ast.Call) and isinstance(n.func, ast.Attribute) and n.func.attr in MUTATORS and ast.unparse(n.func.value) in reads:
+            if isinstance(n, ast.Call) and isinstance(n.func, ast.Attribute) and n.func.attr in MUTATORS and conflicts(ast.unparse(n.func.value)):
                 return True
-            if isinstance(n, ast.Call) and isinstance(n.func, ast.Name) and n.func.id in ('setattr', 'delattr') and n.args \
-                    and ast.unparse(n.args[0]) in reads:
-                return True
+            if isinstance(n, ast.Call) and isinstance(n.func, ast.Name) and n.func.id in ('setattr', 'delattr') and n.args:
+                base = ast.unparse(n.args[0])
+                if any(r == base or r.startswith(base + '.') or r.startswith(base + '[') for r in reads):
+                    return True          # setattr(obj, <computed name>, ...) may write any attribute of obj
     return False
 
 
